@@ -352,7 +352,18 @@ func (x *TX) of(v ssa.Value, at ssa.Instruction) *Term {
 		}
 		return unknown("unop " + v.Op.String())
 	case *ssa.BinOp:
-		return mk("bin", v.Op.String(), x.Of(v.X, v), x.Of(v.Y, v))
+		l, r := x.Of(v.X, v), x.Of(v.Y, v)
+		if b, ok := v.Type().Underlying().(*types.Basic); ok && b.Info()&types.IsNumeric != 0 {
+			switch v.Op {
+			case token.ADD, token.MUL, token.AND, token.OR, token.XOR:
+				// commutative on numbers: canonical operand order (constants last)
+				lc, rc := l.Op == "const", r.Op == "const"
+				if (lc && !rc) || (lc == rc && r.String() < l.String()) {
+					l, r = r, l
+				}
+			}
+		}
+		return mk("bin", v.Op.String(), l, r)
 	case *ssa.Call:
 		return x.callTerm(v)
 	case *ssa.Extract:
